@@ -329,3 +329,7 @@ func VerifRegistryDump() string {
 	}
 	return sb.String()
 }
+
+// VerifAttrsOf returns the logger's own attribute slice itself (not a copy): C08
+// snapshots it before and after a log call to see whether the call wrote to it.
+func VerifAttrsOf(e *Entry) Attrs { return e.attrs }
